@@ -27,7 +27,9 @@ Base(ig) ==
                 X |-> Rule(A1),
                 Y |-> Rule(Plus(B1)),
                 K |-> Class(<<Field("k", Ref("X")), Field("rest", Star(Ref("Y")))>>),
-                Z |-> Rule(Seq2(Ref("Y"), Ref("X")))],
+                Z |-> Rule(Seq2(Ref("Y"), Ref("X"))),
+                T |-> RuleP(<<"p">>, Seq2(Ref("p"), Opt(Str(<<33>>)))),          \* a parameterised rule
+                U |-> Rule(Seq2(Str(<<35>>), Call("T", <<Pos(Ref("X"))>>)))],      \* ... used with a rule name as argument
      ign |-> IF ig = "none" THEN <<>> ELSE <<Blank>>]
 
 (* what a derived level does with each rule: option tags *)
@@ -35,7 +37,7 @@ XOpts == {"inherit", "override", "super"}
 YOpts == {"inherit", "override"}
 SOpts == {"inherit", "override", "super"}
 KOpts == {"inherit", "rule"}
-NOpts == {"absent", "new"}
+NOpts == {"absent", "new", "tsuper"}       \* tsuper: T(p) overridden in terms of super.T(p)
 
 Derived(xo, yo, so, ko, no, addign) ==
     LET r1 == IF xo = "override" THEN [X |-> Rule(C1)]
@@ -44,7 +46,12 @@ Derived(xo, yo, so, ko, no, addign) ==
         r3 == IF so = "override" THEN [start |-> Rule(Seq2(Opt(Ref("Y")), Ref("X")))]
               ELSE IF so = "super" THEN [start |-> Rule(Seq2(<<"super", "start">>, Opt(Str(<<33>>))))] ELSE <<>>
         r4 == IF ko = "rule" THEN [K |-> Rule(Seq2(Ref("X"), Ref("X")))] ELSE <<>>
-        r5 == IF no = "new" THEN [N |-> Rule(Seq2(Ref("X"), Ref("Z")))] ELSE <<>>
+        r5 == IF no = "new" THEN [N |-> Rule(Seq2(Ref("X"), Ref("Z")))]
+              ELSE IF no = "tsuper"
+              THEN [T |-> RuleP(<<"p">>, Seq2(Str(<<36>>), <<"scall", "T", <<Pos(Ref("p"))>>>>)),
+                    \* a rule of this level that goes through the inherited U (and so through T and X, late-bound)
+                    V |-> Rule(Seq2(Ref("U"), Opt(Call("T", <<Pos(C1)>>))))]
+              ELSE <<>>
     IN [rules |-> r1 @@ r2 @@ r3 @@ r4 @@ r5, ign |-> IF addign THEN <<Str(<<dash>>)>> ELSE <<>>]
 
 VARIABLES ig, d2, d3, done
@@ -57,21 +64,28 @@ Opts3 == { <<"inherit", "inherit", "inherit", "inherit", "absent">>,    \* (plac
            <<"override", "inherit", "inherit", "inherit", "absent">>,
            <<"super", "inherit", "inherit", "inherit", "new">>,
            <<"inherit", "override", "super", "inherit", "absent">>,
-           <<"super", "override", "override", "rule", "new">> }
+           <<"super", "override", "override", "rule", "new">>,
+           <<"inherit", "inherit", "inherit", "inherit", "tsuper">>,
+           <<"override", "inherit", "inherit", "inherit", "tsuper">> }
 
-Init == /\ ig \in {"none", "named", "anon", "both"}
+Special == { <<"super", "inherit", "inherit", "inherit", "absent">>,
+             <<"override", "override", "super", "inherit", "new">>,
+             <<"super", "inherit", "override", "rule", "new">>,
+             <<"inherit", "override", "super", "inherit", "absent">>,
+             <<"inherit", "inherit", "inherit", "inherit", "tsuper">>,
+             <<"super", "inherit", "inherit", "inherit", "tsuper">>,
+             <<"override", "inherit", "inherit", "inherit", "tsuper">> }
+
+Init == /\ ig \in {"none", "named", "anon", "both", "bothanon"}
         /\ d2 \in {o \in Opts : NonTrivial(o)}
         /\ d3 \in Opts3
         /\ (Tier = "quick" => ig # "named")
-        /\ (Tier = "quick" => (~NonTrivial(d3) \/ d2 \in { <<"super", "inherit", "inherit", "inherit", "absent">>,
-                                                            <<"override", "override", "super", "inherit", "new">>,
-                                                            <<"super", "inherit", "override", "rule", "new">>,
-                                                            <<"inherit", "override", "super", "inherit", "absent">> }))
+        /\ (Tier = "quick" => IF ig = "none" THEN ~NonTrivial(d3) \/ d2 \in Special ELSE d2 \in Special)
         /\ done = FALSE
 
 Chain ==
     LET bb == Base(ig)
-        m2 == Derived(d2[1], d2[2], d2[3], d2[4], d2[5], ig = "both")
+        m2 == Derived(d2[1], d2[2], d2[3], d2[4], d2[5], ig \in {"both", "bothanon"})
         m3 == Derived(d3[1], d3[2], d3[3], d3[4], d3[5], FALSE)
     IN IF NonTrivial(d3) THEN <<bb, m2, m3>> ELSE <<bb, m2>>
 
@@ -85,12 +99,14 @@ Chain2 ==
         e2 == [Chain[2] EXCEPT !.rules = ("M" :> Rule(Seq2(Ref("W"), Opt(Ref("X"))))) @@ @]
     IN <<b2, e2>>
 
-Alpha == IF ig = "none" THEN <<a, b, c3>> ELSE IF ig = "both" THEN <<a, b, c3, sp, dash>> ELSE <<a, b, c3, sp>>
+Alpha == IF ig = "none" THEN <<a, b, c3>> ELSE IF ig \in {"both", "bothanon"} THEN <<a, b, c3, sp, dash>> ELSE <<a, b, c3, sp>>
 Texts == TextSeqUpTo(Alpha, IF Tier = "quick" THEN 3 ELSE 4)
-         \o << <<a, b, b, 33>>, <<a, c3, b, b>>, <<b, b, a, c3>>, <<a, c3, b, 33>>, <<a, a, b, a>>, <<c3, c3, a>> >>
+         \o << <<a, b, b, 33>>, <<a, c3, b, b>>, <<b, b, a, c3>>, <<a, c3, b, 33>>, <<a, a, b, a>>, <<c3, c3, a>>,
+               <<35, a, 33>>, <<35, 36, a, 33>>, <<35, 36, 36, a>>, <<35, c3>>, <<35, 36, c3, 33>>, <<35, 36, a, c3, 33>>,
+               <<35, 36, 36, a, c3>> >>
          \o (IF ig = "none" THEN <<>> ELSE << <<sp, a, sp, b, sp, b>>, <<a, sp, c3, sp, b>>, <<sp, sp, a, sp, a>> >>)
 
-EntriesOf(chain, top) == SelectSeq(<<"start", "X", "Y", "K", "Z", "N", "M">>, LAMBDA r : HasDef(chain, 1, top, r))
+EntriesOf(chain, top) == SelectSeq(<<"start", "X", "Y", "K", "Z", "N", "M", "U", "V">>, LAMBDA r : HasDef(chain, 1, top, r))
 
 RunsFor(chain, top) ==
     LET G == Flat(chain, top)
